@@ -4,7 +4,7 @@ import vlib
 from props.c06 import pairwise, hx
 
 PROP_FILES = ['Properties/C10']
-EXTRA_OBLIGATION_FILES = ['Proofs/AtomWire']
+EXTRA_OBLIGATION_FILES = ['Proofs/AtomWire', 'Proofs/AtomFront']
 TRUSTED = [
     'atomic steps of the hand-written model as GENERATED obligations (Proofs/AtomWire.v, re-proved on every run about coq/Gen/Atomicity.v; in a private re-generated copy under VERIF_EXTRA_OVERLAY): tools/lockscan (go/ast, syntactic types) is trusted to list, per function of internal/{server,multiplex,common,client}, every field access / call / sync/atomic operation with the critical sections (Lock..Unlock / RLock..RUnlock / deferred unlock, mutex identity by name) it lies in, every sync.Pool.Put with the later mentions of the object, and every variable a go statement shares with its spawner (anything it cannot resolve is in atomicity_errors, which must be empty); it does not follow calls (a region is what one function writes between Lock and Unlock), does no alias analysis, treats callbacks as running with no lock held, and counts call sites, not executions (a loop around one call site is invisible)',
     'Coq 8.16.1 kernel incl. vm_compute (no native_compute); every C10 theorem is Closed under the global context',
@@ -509,3 +509,9 @@ def replay(ctx, verdict):
 
 def search(ctx, verdict, problems):
     return winlib.search(ctx, verdict, problems)
+
+
+# generated obligation of the front door (Proofs/AtomFront.v): every connection's first packet, parsed hello and reply are
+# values of that connection alone - no byte buffer at package level, no pooled object (or a view of it) used after its
+# Put, no goroutine sharing a buffer with its spawner
+TRUSTED = list(TRUSTED) + ['generated obligations Proofs/AtomFront.v about coq/Gen/Atomicity.v (tools/lockscan, go/ast: package-level variables with the kind of their type, sync.Pool.Put sites with the later mentions of the object or of a local view of its memory - slicings, dereferences, appends, local function literals that mention it, results handed out by a function whose Put is deferred -, variables shared by go statements); re-proved on every run, in a private re-generated copy under VERIF_EXTRA_OVERLAY']
